@@ -186,6 +186,7 @@ type c23Stream struct {
 
 type c23SplitStats struct {
 	waits, insideCuts, varintCuts int64
+	retainedSends                 int64 // SEND frames compared again at the end of the stream, after the read buffer was overwritten
 }
 
 // split feeds the stream in the given chunks (cut offsets, ascending, strictly inside the
@@ -254,6 +255,7 @@ func (fd *c23Feeder) split(s *c23Stream, cuts []int, st *c23SplitStats) *c23Viol
 		return c23V("bytes-left-at-end-of-stream", "%d unconsumed bytes after a complete stream", len(fd.inbound))
 	}
 	for i := 0; i < nsends; i++ {
+		st.retainedSends++
 		if fld, det := c23Diff(s.expected[sends[i].idx], sends[i].got); fld != "" {
 			return c23V("send-frame-aliases-input-buffer", "SEND frame #%d of %v changed in %s after the input buffer was reused: %s", sends[i].idx, s.names, fld, det)
 		}
